@@ -997,6 +997,18 @@ def _chunks(data):
     return (fmt, ntr, div, lens) if pos == len(data) else None
 
 
+def _chunk_data(data):
+    """the bytes of every track chunk, or None for a file that is not chunk-structured"""
+    if _chunks(data) is None:
+        return None
+    pos, out = 14, []
+    while pos < len(data):
+        n = int.from_bytes(data[pos + 4:pos + 8], "big")
+        out.append(data[pos + 8:pos + 8 + n])
+        pos += 8 + n
+    return out
+
+
 def _midi_writers(R, tier, rnd):
     from mingus.midi import midi_file_out as mfo
     from mingus.containers import Note, NoteContainer
@@ -1032,6 +1044,30 @@ def _midi_writers(R, tier, rnd):
                     R.fail("midi_file_out." + name, C_SIB, "the same object written again (after other writes) gives "
                            "different bytes: %d vs %d bytes" % (len(first[name]), len(data)), name)
                 first.setdefault(name, data)
+        # the per-track writers of one composition are separate objects: every track chunk of the composition's file is
+        # what that track gives when it is written alone
+        for bpm, rep in ((120, 0), (90, 1)):
+            comp = O["comp"]()
+            path = os.path.join(tmp, "comp.mid")
+            R.case("midi_file_out.write_Composition", ("chunk per track", bpm, rep))
+            ok, _ = R.guard("midi_file_out.write_Composition", C_SIB, "chunks", lambda: mfo.write_Composition(path, comp, bpm, rep))
+            if not ok:
+                continue
+            with open(path, "rb") as fh:
+                whole = _chunk_data(fh.read())
+            os.remove(path)
+            for i, t in enumerate(comp.tracks):
+                ok, _ = R.guard("midi_file_out.write_Track", C_SIB, "chunks", lambda: mfo.write_Track(path, t, bpm, rep))
+                if not ok:
+                    continue
+                with open(path, "rb") as fh:
+                    alone = _chunk_data(fh.read())
+                os.remove(path)
+                if whole is None or not alone or len(whole) != len(comp.tracks) or whole[i] != alone[0]:
+                    R.fail("midi_file_out.write_Composition", C_SIB, "track chunk %d of a %d-track composition (%s bytes) is "
+                           "not what that track gives written alone (%s bytes): the per-track writers share content"
+                           % (i, len(comp.tracks), len(whole[i]) if whole and len(whole) > i else None,
+                              len(alone[0]) if alone else None), (bpm, rep, i))
     finally:
         shutil.rmtree(tmp, ignore_errors=True)
 
